@@ -318,9 +318,23 @@ type c11CB struct {
 	s    *c11State
 	name string
 	zero bool // return the zero value of a value-type error instead of a serial-carrying one
+	// direct: instead of returning the error, record it with AddError on the row/table the callback was handed
+	direct bool
 }
 
 func (cb *c11CB) UpdateProperties(po tabular.PropertyOwner) error {
+	if cb.direct {
+		switch o := po.(type) {
+		case *tabular.Row:
+			cb.s.extra = appendUnique(cb.s.extra, "callback_calls_AddError_on_its_row")
+			o.AddError(cb.s.raise(cb.name))
+			return nil
+		case *tabular.ATable:
+			cb.s.extra = appendUnique(cb.s.extra, "callback_calls_AddError_on_its_table")
+			o.AddError(cb.s.raise(cb.name))
+			return nil
+		}
+	}
 	if cb.zero {
 		s := cb.s
 		if r := s.b.CurDetached; r != nil && !r.Attached {
@@ -438,11 +452,15 @@ func (s *c11State) register(owner string, tg int, target string, wn int, when st
 	}
 	name := fmt.Sprintf("cb%d:%s/%s/%s", s.nreg+1, owner, when, target)
 	c.Logf("t.RegisterPropertyCallback(%s, %s, %s, failing %s)", owner, when, target, name)
-	zero := c.Bool()
+	variant := c.Choose(3)
+	zero, direct := variant == 1, variant == 2
 	if zero {
 		name += "/zero-valued-error"
 	}
-	err := registerCB(b.T, po, wn, tg, &c11CB{s, name, zero})
+	if direct {
+		name += "/records-it-with-AddError-on-what-it-was-handed"
+	}
+	err := registerCB(b.T, po, wn, tg, &c11CB{s, name, zero, direct})
 	if err != nil {
 		c.Logf("  -> refused: %v", err)
 		return
@@ -454,7 +472,7 @@ func (s *c11State) register(owner string, tg int, target string, wn int, when st
 	if c.Bool() {
 		name2 := name + "#2"
 		c.Logf("t.RegisterPropertyCallback(%s, %s, %s, failing %s)   // same slot again", owner, when, target, name2)
-		if err := registerCB(b.T, po, wn, tg, &c11CB{s, name2, zero}); err == nil {
+		if err := registerCB(b.T, po, wn, tg, &c11CB{s, name2, zero, direct}); err == nil {
 			s.regDesc = append(s.regDesc, name2)
 			s.extra = appendUnique(s.extra, "two_failing_callbacks_on_one_slot")
 		}
